@@ -485,10 +485,23 @@ func runCaseObs(c tcase, choose func(enabled []string, n int, o [2]server.VerifC
 	return res, c
 }
 
+// wedges counts cases in which the watchdog of the scheduler fired (10 s each): after a few of them the run stops
+// generating cases - the verdict is clear and a run must stay within its time budget.
+var wedges int
+
+// stopEnum ends the exhaustive enumeration once the case budget is used up
+var stopEnum bool
+
+func giveUp() bool { return wedges >= 3 || stopEnum }
+
 func runStable(c tcase) result {
 	var r result
 	for try := 0; try < 5; try++ {
 		r, _ = runCase(c, nil)
+		if r.sig == "scheduler-trouble" && strings.HasPrefix(r.detail, "wedged") {
+			wedges++
+			return r
+		}
 		if !r.slow {
 			return r
 		}
@@ -561,6 +574,9 @@ func (k idClass) stepOf(l string) step {
 func explore(k idClass, maxLen, maxK int, emit func(tcase, result)) {
 	var rec func(prefix []step)
 	rec = func(prefix []step) {
+		if giveUp() {
+			return
+		}
 		c := tcase{rid: k.rid, las: k.las, pas: k.pas, steps: prefix}
 		r := runStable(c)
 		var next []string
@@ -597,7 +613,7 @@ func explore(k idClass, maxLen, maxK int, emit func(tcase, result)) {
 func randomCase(r *hx.RNG, k idClass, n int, serial bool) tcase {
 	c := tcase{rid: k.rid, las: k.las, pas: k.pas}
 	_, full := runCaseObs(c, func(enabled []string, at int, o [2]server.VerifC24FSMObs) (step, bool) {
-		if at >= n {
+		if at >= n || giveUp() {
 			return step{}, false
 		}
 		var ok []string
@@ -675,7 +691,7 @@ func main() {
 		maxLen, maxK = 24, 2
 	}
 	if cfg.Mode == "search" {
-		maxLen, maxK = 24, 2
+		maxLen, maxK = 24, 1
 	}
 	if v := os.Getenv("C24_MAXK"); v != "" {
 		maxK, _ = strconv.Atoi(v)
@@ -686,6 +702,7 @@ func main() {
 		k := k
 		explore(k, maxLen, maxK, func(c tcase, r result) {
 			if n >= cfg.N {
+				stopEnum = true
 				return
 			}
 			emit(fmt.Sprintf("x-%s-%d", k.name, n), c, r)
@@ -694,8 +711,9 @@ func main() {
 		})
 	}
 	exhaustive := n
+	stopEnum = false
 	// random part: longer walks
-	for i := 0; n < cfg.N; i++ {
+	for i := 0; n < cfg.N && !giveUp(); i++ {
 		r := rng.Fork(uint64(i))
 		ks := classes(r)
 		k := ks[r.Intn(len(ks))]
